@@ -445,7 +445,33 @@ func (w *aWorld) build(p *opPlan) ([]byte, *refmodel.Op) {
 			big, _ := patch.NewJSONPatch(fmt.Sprintf(`[{"op":"add","path":"/note","value":%q}]`, strings.Repeat("x", int(w.version().P.MaxDeltaSize)+40)))
 			raw.Patches = append(raw.Patches, big)
 		case p.delta == refmodel.DeltaInvalid:
-			raw.NoPatches = true
+			// other ways for a delta to be invalid although it matches its signed hash: an unacceptable key behind an
+			// acceptable one (JWK or base58) in one key list, a key id given twice, a service whose endpoint is no URI
+			b58 := `{"id":"b58","type":"Ed25519VerificationKey2018","publicKeyBase58":"GY4GunSXBPBfhLCzDL7iGmP5dR3sBDCJZkkaGK8VgYQf"}`
+			jwkKey := `{"id":"ok1","type":"JsonWebKey2020","publicKeyJwk":{"kty":"EC","crv":"P-256","x":"AA","y":"BB"}}`
+			bad := `{"id":"bad","type":"NoSuchKeyType2099","publicKeyJwk":{"kty":"EC","crv":"P-256","x":"AA","y":"BB"}}`
+
+			var inv patch.Patch
+
+			switch w.k.T.Draw(6, "delta.invalid.kind") {
+			case 0:
+				raw.NoPatches = true
+			case 1:
+				_ = json.Unmarshal([]byte(`{"action":"add-public-keys","publicKeys":[`+b58+`,`+bad+`]}`), &inv)
+			case 2:
+				_ = json.Unmarshal([]byte(`{"action":"add-public-keys","publicKeys":[`+jwkKey+`,`+bad+`]}`), &inv)
+			case 3:
+				_ = json.Unmarshal([]byte(`{"action":"add-public-keys","publicKeys":[`+jwkKey+`,`+jwkKey+`]}`), &inv)
+			case 4:
+				_ = json.Unmarshal([]byte(`{"action":"add-services","services":[{"id":"s9","type":"T","serviceEndpoint":"https://ok.example"},{"id":"s8","type":"T","serviceEndpoint":"no uri at all"}]}`), &inv)
+			default:
+				_ = json.Unmarshal([]byte(`{"action":"replace","document":{"publicKeys":[`+b58+`,`+bad+`]}}`), &inv)
+			}
+
+			if inv != nil {
+				raw.Patches = append(raw.Patches, inv)
+				w.k.Count("probe:invalid-delta-with-unacceptable-entry-behind-acceptable-one")
+			}
 		}
 
 		req, err = workload.BuildRaw(raw)
